@@ -5,16 +5,26 @@ package fifo
 // Contracts for govc (contract-based deductive verification; see /verif/DESIGN.md).
 // This file holds only comments and is compiled only with -tags verif.
 //
-// C13, per-key bookkeeping of the FIFO mutex map (DESIGN.md §6 C13). fifo.Mutex is a one-slot channel used as
-// a token; its Lock/Unlock are lock operations for the monitor rule (`opt lockop`). Mutual exclusion and FIFO
-// grant order are the semantics of Go channels (assumed, not proved here).
+// C13, FIFO mutex and per-key FIFO mutex map.
 //
-// Ghost `mine[k]` is thread-local: the number of holder/waiter units the current goroutine owns for key k
-// (incremented by Lock, decremented by Unlock). Other goroutines only ever remove their own units, so from
-// this goroutine's point of view an entry's ilen is never smaller than mine[k]: that is the lock invariant.
+// fifo.Mutex is a one-slot channel used as a token: Lock is one blocking send, Unlock one receive (ghost m.tokens:
+// units the current goroutine put in). Proved: the channel has exactly one slot, Lock returns only after its send
+// succeeded, Unlock takes exactly one unit out. ASSUMED, not proved (no contract can state it): a one-slot channel
+// admits one unit at a time (mutual exclusion) and the Go runtime serves blocked senders in arrival order (FIFO
+// grant). The `opt lockop` lines make the monitor rule for fifoMap trust fifo.Mutex as a lock; that is sound only
+// for instances made by New() (one slot): NewMap's contract says where fifoMap.lock comes from.
+//
+// fifoMap. Shared ghost users[k]: the number of goroutines that hold or wait for key k (registered by Lock before
+// the map lock is dropped, deregistered by Unlock). Thread-local ghosts: mine[k], the units of users[k] the current
+// goroutine owns, and mymu[k], the mutex it registered with. The lock invariant says (from the property, not from
+// the code): an entry exists exactly while somebody holds or waits ([C13.fifomap.inv.pruned]: "entries disappear when
+// the last holder or waiter leaves", and never earlier), the code's counter ilen is that number
+// ([C13.fifomap.inv.count]), and a goroutine that holds or waits still finds the mutex it registered with under its key
+// ([C13.fifomap.inv.same]: same key -> same mutex, which is what turns the exclusion of one fifo.Mutex into exclusion
+// per key). [..guar] at every release of the map lock: a section leaves the binding of every key that OTHER goroutines
+// use untouched - that is what entitles them to assume [C13.fifomap.inv.same] at their next acquisition.
+// Kept assumption: ilen does not wrap around (2^64 simultaneous holders/waiters of one key cannot exist).
 
-// The token channel has exactly one slot (a second slot would admit two holders); Lock returns only after its send
-// on it succeeded and Unlock takes exactly one unit out (ghost m.tokens: units the current goroutine put in).
 //@ type Mutex
 //@   ghost tokens int
 
@@ -22,7 +32,7 @@ package fifo
 //@   tags C13 C07
 //@   modifies nothing
 //@   ensures fresh(result) && result != nil
-//@   ensures [C13.fifo.oneslot] cap(result.lock) == 1
+//@   ensures [C13.fifo.oneslot] result.lock != nil && cap(result.lock) == 1
 
 //@ func (*Mutex).Lock
 //@   tags C13
@@ -31,7 +41,6 @@ package fifo
 //@   at every send ghost m.tokens = m.tokens + (arg0 == m.lock ? 1 : 0)
 //@   at every recv ghost m.tokens = m.tokens - (arg0 == m.lock ? 1 : 0)
 //@   opt lockop=lock
-//@   opt go=ignore
 //@ func (*Mutex).Unlock
 //@   tags C13
 //@   requires m != nil
@@ -39,31 +48,77 @@ package fifo
 //@   at every recv ghost m.tokens = m.tokens - (arg0 == m.lock ? 1 : 0)
 //@   at every send ghost m.tokens = m.tokens + (arg0 == m.lock ? 1 : 0)
 //@   opt lockop=unlock
-//@   opt go=ignore
 
 //@ type fifoMap
+//@   ghost users [tp]int
 //@   ghost mine [tp]int
-//@   lock lock protects items mapItem.ilen
-//@   lockinv lock self.items != nil
-//@   lockinv lock forall k tp :: haskey(self.items, k) ==> (self.items[k] != nil && self.items[k].ilen >= 1 && self.items[k].ilen >= self.mine[k] && self.items[k].mutex != nil && allocated(self.items[k]))
-//@   lockinv lock forall k tp :: !haskey(self.items, k) ==> self.mine[k] == 0
-//@   lockinv lock forall j tp, k tp :: (haskey(self.items, j) && haskey(self.items, k) && j != k) ==> self.items[j] != self.items[k]
+//@   ghost mymu [tp]ref
+//@   invariant [f.items] self.items != nil
+//@   invariant [f.entry] forall k tp :: haskey(self.items, k) ==> (self.items[k] != nil && allocated(self.items[k]) && self.items[k].mutex != nil && cap(self.items[k].mutex.lock) == 1)
+//@   invariant [f.distinct] forall j tp, k tp :: (haskey(self.items, j) && haskey(self.items, k) && j != k) ==> self.items[j] != self.items[k]
+//@   invariant [f.mine] forall k tp :: 0 <= self.mine[k] && self.mine[k] <= self.users[k]
+//@   invariant [f.pruned] forall k tp :: haskey(self.items, k) <==> self.users[k] > 0
+//@   invariant [f.count] forall k tp :: haskey(self.items, k) ==> self.items[k].ilen == self.users[k]
+//@   invariant [f.same] forall k tp :: self.mine[k] > 0 ==> self.items[k].mutex == self.mymu[k]
+//@   lock lock protects items users mapItem.ilen
+//@   lockinv lock [C13.fifomap.inv.items] invonly(self, "f.items")
+//@   lockinv lock [C13.fifomap.inv.entry] invonly(self, "f.entry")
+//@   lockinv lock [C13.fifomap.inv.distinct] invonly(self, "f.distinct")
+//@   lockinv lock [C13.fifomap.inv.mine] invonly(self, "f.mine")
+//@   lockinv lock [C13.fifomap.inv.pruned] invonly(self, "f.pruned")
+//@   lockinv lock [C13.fifomap.inv.count] invonly(self, "f.count")
+//@   lockinv lock [C13.fifomap.inv.same] invonly(self, "f.same")
+
+// Initial state and base case of the lock invariant: the map lock is a one-slot fifo.Mutex, there are no entries; with
+// the initial ghost state (nobody holds or waits) every invariant clause holds.
+//@ func NewMap
+//@   tags C13 C07
+//@   ensures [C13.fifomap.new.lock] fresh(unbox(result, "*github.com/dapr/kit/concurrency/fifo.fifoMap")) && unbox(result, "*github.com/dapr/kit/concurrency/fifo.fifoMap").lock != nil && cap(unbox(result, "*github.com/dapr/kit/concurrency/fifo.fifoMap").lock.lock) == 1
+//@   ensures [C13.fifomap.new.empty] unbox(result, "*github.com/dapr/kit/concurrency/fifo.fifoMap").items != nil && len(unbox(result, "*github.com/dapr/kit/concurrency/fifo.fifoMap").items) == 0 && (forall j tp :: !haskey(unbox(result, "*github.com/dapr/kit/concurrency/fifo.fifoMap").items, j))
+//@   ensures [C13.fifomap.new.inv] (forall k tp :: unbox(result, "*github.com/dapr/kit/concurrency/fifo.fifoMap").users[k] == 0 && unbox(result, "*github.com/dapr/kit/concurrency/fifo.fifoMap").mine[k] == 0) ==> inv(unbox(result, "*github.com/dapr/kit/concurrency/fifo.fifoMap"))
 
 //@ func (*fifoMap).Lock
 //@   tags C13 C07
-//@   requires a != nil && a.lock != nil && a.mine[key] >= 0
-//@   ensures [C13.fifomap.lock.units] a.mine == update(old(a.mine), key, old(a.mine[key]) + 1)
-//@   ensures [C13.fifomap.lock.entry] at(U, haskey(a.items, key)) && at(U, a.items[key].ilen) >= a.mine[key]
-//@   at store ilen#0 ghost a.mine = update(a.mine, key, a.mine[key] + 1)
+//@   requires a != nil && a.lock != nil && cap(a.lock.lock) == 1
+//@   at call Lock#0 label L
 //@   at before call Unlock#0 label U
-//@   at before call Lock#1 assert !held(a.lock)
-//@   at call Lock#0 assume forall k tp :: haskey(a.items, k) ==> a.items[k].ilen < 9223372036854775807
+//@   ghost got ref
+//@   ghost nlock int
+//@   at entry ghost nlock = 0
+//@   at store ilen#0 ghost a.users = update(a.users, key, a.users[key] + 1)
+//@   at store ilen#0 ghost a.mine = update(a.mine, key, a.mine[key] + 1)
+//@   at store ilen#0 ghost a.mymu = update(a.mymu, key, m.mutex)
+//@   at before call Lock#1 ghost got = arg0
+//@   at call Lock#1 ghost nlock = nlock + 1
+//@   at before call Lock#1 assert [C13.fifomap.lock.outside] !held(a.lock)
+//@   at before call Unlock#0 assert [C13.fifomap.lock.guar] forall k tp :: at(L, a.users[k]) > at(L, a.mine[k]) ==> (haskey(a.items, k) && a.items[k] == at(L, a.items[k]) && a.items[k].mutex == at(L, a.items[k].mutex))
+//@   at before call Unlock#0 assert [C13.fifomap.lock.lockstep] forall k tp :: a.users[k] - at(L, a.users[k]) == a.mine[k] - at(L, a.mine[k])
+//@   ensures [C13.fifomap.lock.which] nlock == 1 && got == a.mymu[key]
+//@   ensures [C13.fifomap.lock.units] a.mine == update(old(a.mine), key, old(a.mine[key]) + 1)
+//@   ensures [C13.fifomap.lock.samemutex] (forall k tp :: k != key ==> a.mymu[k] == old(a.mymu[k])) && (old(a.mine[key]) > 0 ==> a.mymu[key] == old(a.mymu[key]))
+//@   ensures [C13.fifomap.lock.count] at(U, a.users) == update(at(L, a.users), key, at(L, a.users[key]) + 1)
+//@   ensures [C13.fifomap.lock.sameentry] at(L, haskey(a.items, key)) ==> (at(U, a.items[key]) == at(L, a.items[key]) && at(U, a.items[key].mutex) == at(L, a.items[key].mutex))
+//@   ensures [C13.fifomap.lock.others] forall j tp :: j != key ==> (at(U, haskey(a.items, j)) == at(L, haskey(a.items, j)) && at(U, a.items[j]) == at(L, a.items[j]) && at(U, a.items[j].ilen) == at(L, a.items[j].ilen) && at(U, a.items[j].mutex) == at(L, a.items[j].mutex))
+//@   at call Lock#0 assume haskey(a.items, key) ==> a.items[key].ilen < 18446744073709551615
 
 //@ func (*fifoMap).Unlock
 //@   tags C13 C07
-//@   requires a != nil && a.lock != nil && a.mine[key] >= 1
-//@   ensures [C13.fifomap.unlock.units] a.mine == update(old(a.mine), key, old(a.mine[key]) - 1)
-//@   ensures [C13.fifomap.unlock.prune] at(U, haskey(a.items, key)) == (at(L, a.items[key].ilen) > 1)
-//@   at store ilen#0 ghost a.mine = update(a.mine, key, a.mine[key] - 1)
+//@   requires a != nil && a.lock != nil && cap(a.lock.lock) == 1 && a.mine[key] >= 1
 //@   at call Lock#0 label L
 //@   at before call Unlock#0 label U
+//@   ghost rel ref
+//@   ghost nrel int
+//@   at entry ghost nrel = 0
+//@   at store ilen#0 ghost a.users = update(a.users, key, a.users[key] - 1)
+//@   at store ilen#0 ghost a.mine = update(a.mine, key, a.mine[key] - 1)
+//@   at before call Unlock#1 ghost rel = arg0
+//@   at call Unlock#1 ghost nrel = nrel + 1
+//@   at before call Unlock#1 assert [C13.fifomap.unlock.outside] !held(a.lock)
+//@   at every before mapdelete assert [C13.fifomap.unlock.nobody-else] a.users[key] == 0
+//@   at before call Unlock#0 assert [C13.fifomap.unlock.guar] forall k tp :: at(L, a.users[k]) > at(L, a.mine[k]) ==> (haskey(a.items, k) && a.items[k] == at(L, a.items[k]) && a.items[k].mutex == at(L, a.items[k].mutex))
+//@   at before call Unlock#0 assert [C13.fifomap.unlock.lockstep] forall k tp :: a.users[k] - at(L, a.users[k]) == a.mine[k] - at(L, a.mine[k])
+//@   ensures [C13.fifomap.unlock.which] nrel == 1 && rel == old(a.mymu[key])
+//@   ensures [C13.fifomap.unlock.units] a.mine == update(old(a.mine), key, old(a.mine[key]) - 1) && a.mymu == old(a.mymu)
+//@   ensures [C13.fifomap.unlock.count] at(U, a.users) == update(at(L, a.users), key, at(L, a.users[key]) - 1)
+//@   ensures [C13.fifomap.unlock.prune] at(U, haskey(a.items, key)) == (at(L, a.users[key]) > 1)
+//@   ensures [C13.fifomap.unlock.others] forall j tp :: j != key ==> (at(U, haskey(a.items, j)) == at(L, haskey(a.items, j)) && at(U, a.items[j]) == at(L, a.items[j]) && at(U, a.items[j].ilen) == at(L, a.items[j].ilen) && at(U, a.items[j].mutex) == at(L, a.items[j].mutex))
